@@ -27,6 +27,12 @@ CHECKS = {
     "json_util.c": ["C20", "C10"],
     "json_visit.c": ["C17"],
     "json_object_iterator.c": ["C06"],
+    "printbuf.h": ["C19", "C02"],
+    "linkhash.h": ["C06", "C05"],
+    "json_object.h": ["C06", "C17", "C02"],
+    "json_object_private.h": ["C11", "C10", "C09"],
+    "arraylist.h": ["C07"],
+    "random_seed.c": ["C18", "C06"],
 }
 
 SWAPS = [(r"<=", "<"), (r">=", ">"), (r"(?<![<>=!-])<(?![<=])", "<="), (r"(?<![<>=!-])>(?![>=])", ">="), (r"==", "!="), (r"!=", "=="),
